@@ -433,3 +433,86 @@ func sigResult(f *ssa.Function) types.Type {
 	}
 	return f.Signature.Results().At(0).Type()
 }
+
+// integersOnlyThroughPrimitivesRule (C04): a decoder gets integers from the input through the checked primitives only.
+func integersOnlyThroughPrimitivesRule(p *core.Program, r *core.Report, rule string) {
+	r.Rule(rule, "the decoders obtain integers from the input only through wkbcommon.ReadUInt32 and ReadByte, whose results count-guard and decoded-index-bounded follow: no function of wkb, ewkb, wkbhex, ewkbhex calls encoding/binary.Read, binary.ReadUvarint/ReadVarint or a ByteOrder's Uint16/Uint32/Uint64, and in wkbcommon a ByteOrder's Uint16/Uint32 is called only by the primitive that hands a (uint32, error) back after io.ReadFull (Uint64 only where the result goes to math.Float64frombits). A count decoded by another route would size memory and bound loops with no rule looking at it", 2)
+	isIntRead := func(c ssa.CallInstruction) (string, bool) {
+		cc := c.Common()
+		if cc.IsInvoke() {
+			if n, ok := cc.Value.Type().(*types.Named); ok && n.Obj().Pkg() != nil && n.Obj().Pkg().Path() == "encoding/binary" {
+				switch cc.Method.Name() {
+				case "Uint16", "Uint32", "Uint64":
+					return "ByteOrder." + cc.Method.Name(), true
+				}
+			}
+			return "", false
+		}
+		o := eng.CalleeObj(c)
+		if o == nil || o.Pkg() == nil || o.Pkg().Path() != "encoding/binary" {
+			return "", false
+		}
+		switch o.Name() {
+		case "Read", "ReadUvarint", "ReadVarint", "Uvarint", "Varint", "Uint16", "Uint32", "Uint64":
+			return "binary." + o.Name(), true
+		}
+		return "", false
+	}
+	n := 0
+	for _, rel := range []string{"encoding/wkb", "encoding/ewkb", "encoding/wkbhex", "encoding/ewkbhex"} {
+		bad := ""
+		for _, fn := range pkgFuncs(p, rel) {
+			for _, c := range eng.Calls(fn) {
+				if what, ok := isIntRead(c); ok && bad == "" {
+					bad = short(fn) + " calls " + what + " at " + p.Pos(c.Pos()) + ": an integer decoded past the primitives, unseen by the limit and index rules"
+				}
+			}
+		}
+		n++
+		r.Check(bad == "", rule, rel, "", true, "integers come from the wkbcommon primitives only", bad)
+	}
+	// wkbcommon: Uint16/Uint32 only in the (uint32, error) primitive; Uint64 only into Float64frombits
+	bad := ""
+	for _, fn := range pkgFuncs(p, "encoding/wkbcommon") {
+		for _, c := range eng.Calls(fn) {
+			what, ok := isIntRead(c)
+			if !ok || bad != "" {
+				continue
+			}
+			switch {
+			case strings.HasSuffix(what, "Uint64"):
+				call, isCall := c.(*ssa.Call)
+				okUse := isCall
+				if isCall {
+					for _, rf := range eng.Referrers(call) {
+						if u, isU := rf.(*ssa.Call); !isU || !eng.IsCallTo(u, "math", "Float64frombits") {
+							okUse = false
+						}
+					}
+				}
+				if !okUse {
+					bad = short(fn) + " uses " + what + " at " + p.Pos(c.Pos()) + " for something other than a float's bit pattern"
+				}
+			case strings.HasSuffix(what, "Uint32") || strings.HasSuffix(what, "Uint16"):
+				res := fn.Signature.Results()
+				prim := res.Len() == 2 && eng.IsErrorType(res.At(1).Type())
+				if prim {
+					bt, isB := res.At(0).Type().Underlying().(*types.Basic)
+					prim = isB && (bt.Kind() == types.Uint32 || bt.Kind() == types.Uint16)
+				}
+				readsFull := false
+				for _, c2 := range eng.Calls(fn) {
+					if eng.IsCallTo(c2, "io", "ReadFull") {
+						readsFull = true
+					}
+				}
+				if !prim || !readsFull {
+					bad = short(fn) + " decodes an integer with " + what + " at " + p.Pos(c.Pos()) + " and is not the (uint32, error) primitive"
+				}
+			default:
+				bad = short(fn) + " calls " + what + " at " + p.Pos(c.Pos())
+			}
+		}
+	}
+	r.Check(bad == "", rule, "encoding/wkbcommon", "", true, "Uint32 in the count primitive, Uint64 into Float64frombits", bad)
+}
